@@ -1,4 +1,5 @@
 import FitModel.Decode
+import FitModel.Options
 import FitModel.Items
 import FitModel.LatLng
 import FitModel.Encode
@@ -19,9 +20,18 @@ def P : Profile := Gen.profile
 def parseNatList (s : String) (sep : Char) : List Nat :=
   if s.isEmpty then [] else (splitOnChar s sep).map (fun t => (parseNat? t).getD 0)
 
-def parseOpts (s : String) : Opts :=
+/-- option string `LFM`, as the harness reads it (impl.go, parseOpts): L = 0 no logger, 1 `WithLogger`
+    first, 2 `WithLogger` last, 3 `WithStdLogger` first, 4 `WithStdLogger` last; F unknown fields;
+    M unknown messages — the list in the order in which the options are passed to the real code -/
+def parseOptList (s : String) : List DOpt :=
   let cs := s.toList
-  { logger := cs.getD 0 '0' == '1', unkFields := cs.getD 1 '0' == '1', unkMsgs := cs.getD 2 '0' == '1' }
+  let l := cs.getD 0 '0'
+  (if l == '1' then [DOpt.logger] else if l == '3' then [DOpt.stdLogger] else []) ++
+  (if cs.getD 1 '0' == '1' then [DOpt.unkFields] else []) ++
+  (if cs.getD 2 '0' == '1' then [DOpt.unkMsgs] else []) ++
+  (if l == '2' then [DOpt.logger] else if l == '4' then [DOpt.stdLogger] else [])
+
+def parseOpts (s : String) : Opts := applyOpts (parseOptList s)
 
 /-- reader spec: `-` or `+`-joined tokens `s:<n.n.n>` (schedule), `e` (last bytes with error), `f` (ends in fault) -/
 def parseReader (spec : String) (data : Bytes) : Reader :=
